@@ -35,7 +35,7 @@ func main() {
 		"just-over-4k":     strings.Repeat("q", 4097),
 		"exactly-4096":     strings.Repeat("q", 4095) + "\n",
 	}
-	ops := []string{"upgrade", "update", "setadmin-true", "setadmin-false", "setadmin-noop", "update-other-user", "remove-other-user", "add-other-user"}
+	ops := []string{"upgrade", "update", "setadmin-true", "setadmin-false", "setadmin-noop", "update-other-user", "remove-other-user", "add-other-user", "remove-target"}
 	if as == "C12" {
 		ops = []string{"upgrade"}
 	}
@@ -81,6 +81,9 @@ func main() {
 		must(d.AddUser("root", "rootpw", true))
 		must(d.AddUser("t", "tpw", j.admin))
 		must(d.AddUser("o", "opw", false))
+		// users whose names extend the target's / the other user's name by a dot-separated part
+		must(d.AddUser("t.x", "txpw", false))
+		must(d.AddUser("o.k", "okpw", true))
 		ext := ".user"
 		if j.admin {
 			ext = ".admin"
@@ -121,6 +124,8 @@ func main() {
 			d.RemoveUser("o")
 		case "add-other-user":
 			err = d.AddUser("n", "npw", false)
+		case "remove-target":
+			d.RemoveUser("t")
 		}
 		viol := func(kind, format string, a ...any) {
 			ev.Violation(kind+":"+j.op, fmt.Sprintf("[aux %s, op %s, set %d, admin %v] ", j.aux, j.op, j.set, j.admin)+fmt.Sprintf(format, a...), map[string]any{"aux": j.aux, "op": j.op, "set": j.set, "admin": j.admin})
@@ -130,6 +135,25 @@ func main() {
 			return
 		}
 		after := verifx.Snap(dir)
+		if j.op == "remove-target" {
+			// the target's record is gone, nothing else differs
+			for k, v := range before {
+				if k == "t.user" || k == "t.admin" {
+					if _, still := after[k]; still {
+						viol("remove-left-record", "file %s still present after remove", k)
+					}
+				} else if !strings.HasPrefix(k, ".tmp") && after[k] != v {
+					viol("other-file-changed", "file %s changed", k)
+				}
+			}
+			for k := range after {
+				if _, ok := before[k]; !ok && !strings.HasPrefix(k, ".tmp") {
+					viol("new-file", "unexpected new file %s", k)
+				}
+			}
+			ev.Distinct(fmt.Sprintf("%s|%s|%d|%v", j.aux, j.op, j.set, j.admin))
+			return
+		}
 		nb, rerr := os.ReadFile(filepath.Join(dir, "t"+newExt))
 		if rerr != nil {
 			viol("target-missing", "target file missing after the operation: %v", rerr)
@@ -161,10 +185,10 @@ func main() {
 		}
 		// every other file byte-identical
 		for k, v := range before {
-			if strings.HasPrefix(k, "t.") || strings.HasPrefix(k, ".tmp") {
+			if k == "t.user" || k == "t.admin" || strings.HasPrefix(k, ".tmp") {
 				continue
 			}
-			if (j.op == "update-other-user" || j.op == "remove-other-user") && strings.HasPrefix(k, "o.") {
+			if (j.op == "update-other-user" || j.op == "remove-other-user") && (k == "o.user" || k == "o.admin") {
 				continue
 			}
 			if after[k] != v {
@@ -172,7 +196,7 @@ func main() {
 			}
 		}
 		for k := range after {
-			if _, ok := before[k]; !ok && !strings.HasPrefix(k, ".tmp") && !strings.HasPrefix(k, "t.") && !(j.op == "add-other-user" && k == "n.user") {
+			if _, ok := before[k]; !ok && !strings.HasPrefix(k, ".tmp") && k != "t.user" && k != "t.admin" && !(j.op == "add-other-user" && k == "n.user") {
 				viol("new-file", "unexpected new file %s", k)
 			}
 			if strings.HasPrefix(k, ".tmp/") && k != ".tmp/" {
@@ -193,7 +217,7 @@ func main() {
 	if as == "C15" {
 		genFailures(ev, root)
 	}
-	ev.Rule = fmt.Sprintf("%d auxiliary-data shapes (none, 1/3 lines, no final newline, CRLF, binary with NUL, blank lines, record-like lines, one 200 KiB line with/without newline, 4096/4097 bytes) x %d operations x 4 parameter sets (two cheap ones, record lines of >4 KiB and >64 KiB) x user/admin on a 3-user store; operation upgrade = same password re-written under another default, as the agent does after a login with an upgradeable hash; byte comparison of the target's auxiliary data, its record line (set-admin) and all other files; add/update/init failing because the default set cannot generate a hash (injected hasher, scrypt r*p too large) x work area present/absent leave the directory byte-identical", len(auxes), len(ops))
+	ev.Rule = fmt.Sprintf("%d auxiliary-data shapes (none, 1/3 lines, no final newline, CRLF, binary with NUL, blank lines, record-like lines, one 200 KiB line with/without newline, 4096/4097 bytes) x %d operations x 4 parameter sets (two cheap ones, record lines of >4 KiB and >64 KiB) x user/admin on a 5-user store (incl. names that extend another name by a dot-separated part); operation upgrade = same password re-written under another default, as the agent does after a login with an upgradeable hash; byte comparison of the target's auxiliary data, its record line (set-admin) and all other files; add/update/init failing because the default set cannot generate a hash (injected hasher, scrypt r*p too large) x work area present/absent leave the directory byte-identical", len(auxes), len(ops))
 	ev.Finish()
 }
 
